@@ -140,6 +140,7 @@ class TLCResult:
         self.violation = None  # text of an invariant / property violation
         self.raw_tail = ""
         self.wall = 0.0
+        self.depth = 0       # depth of the state graph search (trace validation: events matched + 1)
 
 
 def tlc(module, cfg, workers=None, timeout=1800, heap="4g", extra=None, files=None, simulate=None, want_lines=True,
@@ -190,6 +191,9 @@ def tlc(module, cfg, workers=None, timeout=1800, heap="4g", extra=None, files=No
             if "Invariant" in line and "is violated" in line or "Temporal properties were violated" in line \
                     or "is violated by the initial state" in line or "Action property" in line and "violated" in line:
                 res.violation = line.strip()
+            m = re.match(r"The depth of the complete state graph search is (\d+)", line)
+            if m:
+                res.depth = int(m.group(1))
             if line.startswith("Error: Deadlock reached"):
                 res.violation = "deadlock"
             if line.startswith("Error: Postcondition") and "is false" in line:
